@@ -55,6 +55,11 @@ def read_model_parameters(
                 soil.fill_nan()
                 break
 
+    # Deepening may have thickened the first compartment: the top-soil depth
+    # used for the water stress comparisons covers at least that compartment
+    # (as ensured when the Soil object is created)
+    soil.z_top = max(soil.z_top, soil.profile.dz.iloc[0])
+
     # TODO: Why all these commented lines? The model does not allow rotations now?
     ###########
     # crop
